@@ -60,7 +60,9 @@ func main() {
 		ob := fs.String("ob", "", "substring of obligation name whose script to print")
 		solve := fs.Bool("solve", true, "run the solvers")
 		timeout := fs.Int("t", 10, "timeout seconds")
+		outDir := fs.String("out", "", "write the scripts of the obligations selected by -ob into this directory instead of printing them")
 		fs.Parse(args[1:])
+		dumpOut = *outDir
 		cmdDump(g, *fn, *ob, *solve, *timeout)
 	case "check":
 		fs := flag.NewFlagSet("check", flag.ExitOnError)
@@ -75,6 +77,8 @@ func main() {
 		usage()
 	}
 }
+
+var dumpOut string
 
 func cmdDump(g *Gen, fn, ob string, solve bool, timeout int) {
 	names := g.matchFuncs(fn)
@@ -96,6 +100,14 @@ func cmdDump(g *Gen, fn, ob string, solve bool, timeout int) {
 		}
 		for _, o := range fv.obs {
 			fmt.Printf("%-8s %-7s %6.2fs %s  props=%v  [%s]%s\n", o.Result, o.Solver, o.Secs, o.Name, o.Props, o.Pos, map[bool]string{true: " contained", false: ""}[o.Contained])
+			if o.Static != "" && o.Static != "holds" {
+				fmt.Println("     static:", o.Static)
+			}
+			if ob != "" && strings.Contains(o.Name, ob) && dumpOut != "" {
+				os.MkdirAll(dumpOut, 0o755)
+				os.WriteFile(filepath.Join(dumpOut, safeFile(o.Name)+".smt2"), []byte(o.Script), 0o644)
+				continue
+			}
 			if ob != "" && strings.Contains(o.Name, ob) {
 				fmt.Println("---- clause:", o.Clause)
 				fmt.Println(o.Script)
